@@ -122,6 +122,41 @@ def hostile_doc(draw):
 
     for n, s in ir["schemas"]:
         _dedupe(s)
+    # derived class names (component; parent + property for inline objects/enums; + "item" / "type<i>" below arrays / unions) that
+    # coincide after normalisation map to one module file (root cause of KF-C09-05, C09's subject): the inline schema is replaced
+    # by a plain string, counted in the case
+    taken = {names.norm(n) for n, _ in ir["schemas"]}
+    n_excl = [0]
+
+    def _claim(s, base):
+        """Returns False if the class this schema would generate collides with one already claimed."""
+        k = s.get("k")
+        if k == "array":
+            return _claim(s["items"], base + "item")
+        if k == "union":
+            return all(_claim(m, base + f"type{i}") for i, m in enumerate(s["members"]))
+        if k not in ("object", "enum"):
+            return True
+        me = names.norm(s["title"]) if s.get("title") else base
+        if me in taken or not me:
+            return False
+        taken.add(me)
+        if k == "object":
+            _claim_props(s, me)
+        return True
+
+    def _claim_props(s, me):
+        for p in s.get("props", []):
+            if not _claim(p[1], me + names.norm(p[0])):
+                p[1] = {"k": "str"}
+                n_excl[0] += 1
+        if isinstance(s.get("addl"), dict) and not _claim(s["addl"], me + "additionalproperty"):
+            s["addl"] = None
+            n_excl[0] += 1
+
+    for n, s in ir["schemas"]:
+        if s.get("k") == "object":
+            _claim_props(s, names.norm(n))
     for op in ir["ops"]:
         ps = op["params"]
         used: list[str] = []
@@ -162,6 +197,8 @@ def hostile_doc(draw):
     ir["title"] = draw(st.one_of(st.just("Verif API"), names.hostile_name().filter(_name_ok)))
     cfg = {"literal_enums": draw(st.booleans()), "docstrings_on_attributes": draw(st.booleans())}
     case = {"ir": ir, "cfg": cfg, "meta": draw(st.sampled_from(["none", "poetry", "pdm", "setup"]))}
+    if n_excl[0]:
+        case["excluded_coinciding_inline_classes"] = n_excl[0]
     if draw(st.integers(0, 4)) == 0:
         # the package is regenerated with --overwrite over an earlier, different document (other tags, schemas, operations)
         case["previous"] = draw(docs.doc_ir(docs.profile(max_schemas=3, max_props=2, max_ops=3)))
@@ -177,6 +214,8 @@ _case_no = 0
 
 
 def run(case, ctx):
+    if case.get("excluded_coinciding_inline_classes"):
+        ctx.label("excluded:coinciding_inline_class_names")
     global _case_no
     _case_no += 1
     ir = case["ir"]
